@@ -274,7 +274,7 @@ class C16(Sim):
                     ops.append({"op": "restore_rule", "b": bi, "r": ri})
                     ops.append({"op": "process", "row": S.draw_row(rng, sp, 0.1)})
             elif r < 0.46:
-                ops.append({"op": "reload", "b": bi})
+                ops.append({"op": "reload", "b": bi, "plain": rng.random() < 0.4})
             elif r < 0.52:
                 ops.append({"op": "restart"})
             elif r < 0.62:
@@ -440,7 +440,7 @@ class C16(Sim):
                     bad_here = [x for x in bad if x[0] == bi]
                     if len(bad_here) == 1 and len(blk.rules) > 1:
                         st.hit("probes.reload_with_one_bad_rule_among_good")
-                    target = lambda: blk.reload_rules(E)  # noqa: E731
+                    target = (lambda: blk.load_rules(E)) if op.get("plain") else (lambda: blk.reload_rules(E))  # noqa: E731
                     scope = [(bi, ri) for ri in range(len(blk.rules))]
                 else:
                     bad_here = bad
